@@ -114,6 +114,11 @@ fn eval(req: &str) -> ImplOut {
         let seed: u64 = f[2].parse().unwrap();
         let nops: usize = f[3].parse().unwrap();
         for op in gen_history_lang(seed, nops) {
+            // structural edits rewrite stored formulas (and may damage them: that is C12–C15's
+            // business); C10 judges histories of inputs, names, styles, sheets, undo/redo
+            if matches!(op, Op::InsertRows { .. } | Op::DeleteRows { .. } | Op::InsertCols { .. } | Op::DeleteCols { .. }) {
+                continue;
+            }
             let is_switch = matches!(op, Op::Language(_) | Op::Locale(_));
             if is_switch {
                 m.evaluate();
@@ -149,7 +154,7 @@ fn eval(req: &str) -> ImplOut {
         let seed: u64 = f[2].parse().unwrap();
         let (a, b): (usize, usize) = (f[3].parse().unwrap(), f[4].parse().unwrap());
         for op in gen_history(seed, 30) {
-            if !matches!(op, Op::Undo | Op::Redo) {
+            if !matches!(op, Op::Undo | Op::Redo | Op::InsertRows { .. } | Op::DeleteRows { .. } | Op::InsertCols { .. } | Op::DeleteCols { .. }) {
                 let _ = apply(&mut m, &op);
             }
         }
